@@ -3,3 +3,13 @@ chk("C19", "exploration",
     "Trusts CPython integer arithmetic and correctly-rounded int/int division as the reference; domain restricted to the statement's (rates 0..2^31, counts 0..2^62).",
     "runtime differential monitoring of the real functions against an exact-arithmetic oracle on boundary and random points",
     "DESIGN.md section 4, C19")
+chk("C20", "exploration",
+    "normalize_beatgrid is run on generated strictly-increasing grids (dyadic class judged with exact equality, general doubles with a conditioning-aware tolerance) and each postcondition of the statement (first index -4, result is a grid, last marker brackets the end, end-segment tempo kept, interior markers unchanged, idempotence, rejection of un-normalisable grids with invalid_argument) is judged by a Fraction-arithmetic oracle over the returned doubles.",
+    "Trusts fractions.Fraction as the exact reference; a marker exactly on offset 0 or exactly on the track end may be read either way (both conventions accepted); inputs whose normalised indices leave +-2^29 are outside the domain.",
+    "runtime monitoring of the real function with an exact-rational postcondition oracle over generated grids",
+    "DESIGN.md section 4, C20")
+chk("C03", "exploration",
+    "Each of the eleven codecs encodes and decodes generated values inside an ASan+UBSan+libstdc++-assertions build; the decoded value is compared with the original bit-for-bit, values the format cannot hold must be rejected by the encoder, and any sanitizer report, crash or non-std exception is a violation. Boundary ladders: label 0..300, 0..12 entries, 0/1/2/32768/32769/40000 markers, 0..100000 points.",
+    "Values are compared as JSON documents carrying doubles as bit patterns; std::bad_alloc above a 256 MiB single allocation is accepted as rejection; sanitizers see only what the workload reaches.",
+    "sanitizer-instrumented execution of encode/decode round trips with an equality oracle on generated and boundary values",
+    "DESIGN.md section 4, C03")
